@@ -218,4 +218,152 @@ theorem chosen_cmd (P : NumPr) (hP : NumExact P) (st : MSt) (S : St) (hcur : S.c
       simp only [Bool.false_eq_true, if_false, Bool.not_false]
       rw [toggle_abs_rel S r.k (vals r.cs) hlen, e1, e2]
 
+/-! ## one group: model state, spec state of the input, spec state of the output -/
+
+structure Base (st : MSt) (Sin Sout : St) : Prop where
+  cin : Sin.cur = (st.x, st.y)
+  cout : Sout.cur = (st.x, st.y)
+  sin : Sin.start = (st.x0, st.y0)
+  sout : Sout.start = (st.x0, st.y0)
+
+def SyncC (st : MSt) (Sin Sout : St) : Prop := Sin.lc = st.c ∧ Sout.lc = st.c
+def SyncQ (st : MSt) (Sin Sout : St) : Prop := Sin.lq = st.q ∧ Sout.lq = st.q
+
+/-- what is known about the remembered control points, by the class of the previous input command -/
+def RelP (prev : PrevClass) (st : MSt) (Sin Sout : St) : Prop :=
+  match prev with
+  | .normal => SyncC st Sin Sout ∧ SyncQ st Sin Sout
+  | .degC => SyncQ st Sin Sout
+  | .degQ => SyncC st Sin Sout
+  | _ => True
+
+theorem relP_of_sync (prev : PrevClass) (st : MSt) (Sin Sout : St) (hc : SyncC st Sin Sout) (hq : SyncQ st Sin Sout) :
+    RelP prev st Sin Sout := by
+  cases prev <;> simp [RelP, hc, hq]
+
+def runSpec : St → List Cmd → St
+  | s, [] => s
+  | s, c :: r => runSpec (stepCmd s c).1 r
+
+theorem classify_congr (S1 S2 : St) (c : Cmd) (h : stepCmd S1 c = stepCmd S2 c) : classify S1 c = classify S2 c := by
+  unfold classify; rw [h]
+
+theorem rewrite_M (st : MSt) (rel single : Bool) (a b : Coord) (ctx : Ctx) :
+    (rewrite st .M rel single [a, b] ctx).skip = false ∧ (rewrite st .M rel single [a, b] ctx).k = .M := by
+  simp [rewrite, stageC, stageQ, stageL]
+
+theorem start_M (S : St) (rel : Bool) (cs : List Coord) (hs : Shaped .M cs) :
+    (stepCmd S ⟨.M, rel, vals cs⟩).1.start = (stepCmd S ⟨.M, rel, vals cs⟩).1.cur := by
+  obtain ⟨a, b, rfl⟩ := len2 cs hs.1
+  simp [stepCmd, vals]
+
+theorem groupKind_M (k0 : Kind) (first : Bool) : groupKind k0 first = .M ↔ isMoveFirst k0 first = true := by
+  unfold groupKind isMoveFirst
+  cases first <;> cases hk : (k0 == Kind.M) <;> simp_all
+
+theorem sync_of_guard (prev : PrevClass) (st : MSt) (Sin Sout : St) (c : Cmd)
+    (hr : RelP prev st Sin Sout) (hz : hazardAt prev c = none) :
+    (isCubic c.k = true → SyncC st Sin Sout) ∧ (isQuad c.k = true → SyncQ st Sin Sout) := by
+  unfold hazardAt at hz
+  constructor
+  · intro hk
+    simp only [hk, Bool.true_or, if_true] at hz
+    cases prev <;> simp_all [RelP]
+  · intro hk
+    simp only [hk, Bool.or_true, if_true] at hz
+    cases prev <;> simp_all [RelP]
+
+theorem groupStep_sound (P : NumPr) (hP : NumExact P) (st : MSt) (Sin Sout : St) (prev : PrevClass)
+    (k0 : Kind) (rel first single : Bool) (cs : List Coord) (ctx : Ctx)
+    (hb : Base st Sin Sout) (hr : RelP prev st Sin Sout)
+    (hs : Shaped (groupKind k0 first) cs) (hok : CoordsOk (groupKind k0 first) 0 cs)
+    (hz : hazardAt prev ⟨groupKind k0 first, rel, vals cs⟩ = none) :
+    (segsFrom Sout (groupsCmds st.ps (groupStep P st k0 rel first single cs ctx).2)).filterMap simp1 =
+      (stepCmd Sin ⟨groupKind k0 first, rel, vals cs⟩).2.filterMap simp1 ∧
+    Base (groupStep P st k0 rel first single cs ctx).1 (stepCmd Sin ⟨groupKind k0 first, rel, vals cs⟩).1
+      (runSpec Sout (groupsCmds st.ps (groupStep P st k0 rel first single cs ctx).2)) ∧
+    RelP (classify Sin ⟨groupKind k0 first, rel, vals cs⟩) (groupStep P st k0 rel first single cs ctx).1
+      (stepCmd Sin ⟨groupKind k0 first, rel, vals cs⟩).1
+      (runSpec Sout (groupsCmds st.ps (groupStep P st k0 rel first single cs ctx).2)) ∧
+    (groupStep P st k0 rel first single cs ctx).1.ps = stateAfter st.ps (groupStep P st k0 rel first single cs ctx).2 := by
+  generalize hk : groupKind k0 first = k at hs hok hz ⊢
+  obtain ⟨hsc, hsq⟩ := sync_of_guard prev st Sin Sout ⟨k, rel, vals cs⟩ hr hz
+  have hE : stepCmd Sin ⟨k, rel, vals cs⟩ = stepCmd Sout ⟨k, rel, vals cs⟩ :=
+    stepCmd_congr Sin Sout k rel cs hs (by rw [hb.cin, hb.cout]) (by rw [hb.sin, hb.sout])
+      (fun e => by have := hsc (by rw [e]; rfl); rw [this.1, this.2])
+      (fun e => by have := hsq (by rw [e]; rfl); rw [this.1, this.2])
+  have hcl := classify_congr Sin Sout _ hE
+  have RW := rewrite_sound st Sout k rel single cs ctx hs hb.cout (fun h => (hsc h).2) (fun h => (hsq h).2)
+  have hco := coords_rewrite st k rel single cs ctx hs hok
+  unfold groupStep
+  rw [hk]
+  generalize hrr : rewrite st k rel single cs ctx = r at RW hco
+  rw [hE, hcl]
+  by_cases hskip : r.skip = true
+  · simp only [hskip, if_true, groupsCmds, segsFrom, runSpec, stateAfter, List.filterMap_nil]
+    obtain ⟨h1, h2⟩ := RW.skip hskip
+    have hkM : k ≠ .M := by
+      intro e; subst e
+      obtain ⟨a, b, rfl⟩ := len2 cs hs.1
+      have := (rewrite_M st rel single a b ctx).1
+      rw [hrr, hskip] at this; exact absurd this (by decide)
+    refine ⟨h1.symm, ⟨?_, hb.cout, ?_, hb.sout⟩, ?_, by trivial⟩
+    · rw [RW.cur, h2, hb.cout]
+    · rw [start_nonM Sout rel k cs hkM, hb.sout]
+    · rw [RW.skipClass hskip]; trivial
+  · have hskip' : r.skip = false := by simpa using hskip
+    simp only [hskip', Bool.false_eq_true, if_false, groupsCmds, segsFrom, runSpec, stateAfter, List.append_nil]
+    have hch := chosen_cmd P hP st Sout hb.cout k0 rel first r RW.shaped hco
+    rw [hch]
+    obtain ⟨hst, hlc, hlq⟩ := RW.emit hskip'
+    have hcur' : (stepCmd Sout ⟨r.k, rel, vals r.cs⟩).1.cur = (r.ax, r.ay) := by rw [hst.cur, RW.cur]
+    refine ⟨hst.segs, ⟨?_, ?_, ?_, ?_⟩, ?_, rfl⟩
+    · simp only [advance]; exact RW.cur
+    · simp only [advance]; exact hcur'
+    · simp only [advance]
+      by_cases hM : k = .M
+      · have : isMoveFirst k0 first = true := (groupKind_M k0 first).1 (by rw [hk, hM])
+        simp only [this, if_true]
+        subst hM
+        rw [start_M Sout rel cs hs, RW.cur]
+      · have : isMoveFirst k0 first = false := by
+          cases h : isMoveFirst k0 first with
+          | false => rfl
+          | true => exact absurd ((groupKind_M k0 first).2 h ▸ hk.symm ▸ rfl) hM
+        simp only [this, Bool.false_eq_true, if_false]
+        rw [start_nonM Sout rel k cs hM, hb.sout]
+    · simp only [advance]
+      rw [hst.start]
+      by_cases hM : k = .M
+      · have : isMoveFirst k0 first = true := (groupKind_M k0 first).1 (by rw [hk, hM])
+        simp only [this, if_true]
+        subst hM
+        rw [start_M Sout rel cs hs, RW.cur]
+      · have : isMoveFirst k0 first = false := by
+          cases h : isMoveFirst k0 first with
+          | false => rfl
+          | true => exact absurd ((groupKind_M k0 first).2 h ▸ hk.symm ▸ rfl) hM
+        simp only [this, Bool.false_eq_true, if_false]
+        rw [start_nonM Sout rel k cs hM, hb.sout]
+    · -- control points
+      rcases RW.how hskip' with hsame | ⟨hnc, hnq, hdeg⟩
+      · apply relP_of_sync
+        · exact ⟨by simp only [advance]; rw [← hsame]; exact hlc, by simp only [advance]; exact hlc⟩
+        · exact ⟨by simp only [advance]; rw [← hsame]; exact hlq, by simp only [advance]; exact hlq⟩
+      · rcases hdeg with ⟨hkc, hcls⟩ | ⟨hkq, hcls⟩
+        · rcases hcls with hcls | hcls <;> rw [hcls]
+          · trivial
+          · have hkq : isQuad k = false := by revert hkc; cases k <;> decide
+            refine ⟨?_, ?_⟩
+            · simp only [advance]
+              rw [lq_nonquad Sout rel k cs hs hkq, ← hlq, lq_nonquad Sout rel r.k r.cs RW.shaped hnq]
+            · simp only [advance]; exact hlq
+        · rcases hcls with hcls | hcls <;> rw [hcls]
+          · trivial
+          · have hkc : isCubic k = false := by revert hkq; cases k <;> decide
+            refine ⟨?_, ?_⟩
+            · simp only [advance]
+              rw [lc_noncubic Sout rel k cs hs hkc, ← hlc, lc_noncubic Sout rel r.k r.cs RW.shaped hnc]
+            · simp only [advance]; exact hlc
+
 end Verif.Proofs.SvgInduct
